@@ -253,7 +253,12 @@ pub struct Rep {
     pub replay: Option<(u32, u64)>,
     pub known_open: HashSet<String>,
     pub verbose: bool,
+    /// sampled event log for the offline second-opinion checker (tools/offline_check.py)
+    pub log: Vec<String>,
+    pub log_seen: BTreeMap<String, u64>,
 }
+
+pub const LOG_CAP_PER_SHARD: usize = 3000;
 
 impl Rep {
     pub fn new(shard: u32, replay: Option<(u32, u64)>, known_open: HashSet<String>) -> Self {
@@ -272,6 +277,8 @@ impl Rep {
             replay,
             known_open,
             verbose: replay.is_some(),
+            log: Vec::new(),
+            log_seen: BTreeMap::new(),
         }
     }
 
@@ -319,6 +326,18 @@ impl Rep {
         let v = self.samples.entry(class.to_string()).or_default();
         if v.len() < 2 {
             v.push(f());
+        }
+    }
+
+    /// Records an event {op, args, expected by the Rust model} for the offline checker: the first 40 events of
+    /// each op and then one in 997, up to a cap per shard. `f` builds the JSON object body (without braces).
+    #[inline]
+    pub fn log_event(&mut self, op: &str, f: impl FnOnce() -> String) {
+        let n = self.log_seen.entry(op.to_string()).or_insert(0);
+        *n += 1;
+        if (*n <= 40 || *n % 997 == 0) && self.log.len() < LOG_CAP_PER_SHARD {
+            let body = f();
+            self.log.push(format!("{{\"op\":\"{}\",{}}}", op, body));
         }
     }
 
@@ -395,6 +414,11 @@ impl Rep {
             e.0 += v.0;
             if e.1.is_empty() {
                 e.1 = v.1;
+            }
+        }
+        for l in o.log {
+            if self.log.len() < LOG_CAP_PER_SHARD * 20 {
+                self.log.push(l);
             }
         }
         for (k, v) in o.notes {
